@@ -177,7 +177,7 @@ CLAIMED["C02"] = (
     "real library is tied to the model through its OBSERVED deltas: after every public-API operation of seeded histories "
     "(all op kinds of the property, saves at seeded prefixes, decks with out-of-order slide part names) the package graph "
     "is snapshotted and the Lean checker decides each step well-formed; every saved zip is judged by the closure "
-    "predicates and re-opened and compared with the in-memory presentation.  For add_slide, add_picture, add_chart and slide.notes_slide "
+    "predicates and re-opened and compared with the in-memory presentation.  For add_slide, add_picture, add_chart, add_ole_object and slide.notes_slide "
     "(the notes slide part, and the default notes master with its theme when the presentation has none) the deltas "
     "are PREDICTED (Model/PkgOps: part names through the slide-id list / first free image index via PackURI.idx / next_partname, "
     "relationship ids through _next_rId, re-use of a matching relationship and of an image part holding the same bytes): "
@@ -189,7 +189,7 @@ CLAIMED["C02"] = (
     "predict_ok (it is the numbering theorem slide_numbers_nodup; calls that renumber slide parts are compared as observed "
     "deltas only), and so is the fixed name of a new default notes master being free (the real library is run at that excluded "
     "point in every run: a listed finding); zip-level closure of the written file is oracle-checked.",
-    "Lean 4 proof (closure invariant under well-formed deltas, induction over histories; predicted deltas of add_slide / add_picture / add_chart / notes_slide proved well-formed) + observed-delta and predicted-graph refinement checks + zip/re-open oracles",
+    "Lean 4 proof (closure invariant under well-formed deltas, induction over histories; predicted deltas of add_slide / add_picture / add_chart / add_ole_object / notes_slide proved well-formed) + observed-delta and predicted-graph refinement checks + zip/re-open oracles",
     "DESIGN.md §5 C02",
 )
 
